@@ -746,8 +746,18 @@ static cfg_t *do_init(int client, int schema, int flags, const json &op)
 	b->root = build_opts(plan["schemas"][schema]["opts"], *b);
 	cfg_t *cfg = nullptr;
 	cfg_t *volatile out = nullptr;
+	// the declarations are the caller's: the library reads them, it does not write to them
+	std::vector<std::string> before;
+	for (auto &blk : b->blocks)
+		before.emplace_back((const char *)blk.first, blk.second);
 	LIBCALL(op, out = cfg_init(b->root, flags));
 	cfg = out;
+	if (!E->res.died)
+		for (size_t k = 0; k < b->blocks.size(); k++)
+			if (memcmp(before[k].data(), b->blocks[k].first, b->blocks[k].second) != 0) {
+				E->res.conservation.push_back("declarations-modified x1");
+				break;
+			}
 	bool poison = plan.contains("knobs") ? plan["knobs"].value("poison", true) : true;
 	release_built(b, poison);
 	if (cfg && !E->res.died) {
